@@ -32,13 +32,17 @@ type HarnessCfg struct {
 	Workers       int
 	Params        map[string]int // tier-dependent integer parameters readable through vParam
 	RealBase58    bool           // execute base58.Encode/Decode for real (Int mode) instead of the abstract bijection
+	SymbolicMake  bool            // make([]byte, n) with symbolic n yields a symbolic-length buffer
+	UFCalls       map[string]bool // functions (by full name) replaced by uninterpreted functions of their arguments
+	BatchPanics   bool            // implicit panic checks of a path are discharged together
+	UFRem         bool            // unsigned x % m with symbolic m is an uninterpreted function with the lemma r < m
 	RelaxFDiv     bool // float division by a constant is relaxed to its FMA characterisation
 	ModAsCondSub  bool           // (a+b) mod N as conditional subtraction (with a checked side condition)
 }
 
 func DefaultCfg() *HarnessCfg {
 	return &HarnessCfg{MaxLoop: 4096, MaxSteps: 20_000_000, MaxPaths: 200000, MaxAlloc: 1 << 20,
-		TimeoutMs: 60000, FeasTimeoutMs: 10000, ConcretizeMax: 256, Backend: "z3", Workers: 8}
+		TimeoutMs: 60000, FeasTimeoutMs: 10000, ConcretizeMax: 256, Backend: "z3", Workers: 8, BatchPanics: true}
 }
 
 func (e *Exec) constStr(v Value) string {
